@@ -15,7 +15,7 @@ func init() { register("C16", "other", checkC16) }
 
 func checkC16(w *World, r *Result) {
 	r.Explanation = "Decides structural necessary conditions: PTH-C16a no append to CustomConstraints is reachable on the path where the select-key directive matched (internal directives never reach SQL), and unique/select-key/constraint classification all read the same comment; FLW-C16b every constant.Value text (ExactString/String) that reaches SQL text passes the double-to-single quote conversion; AGR-C16c custom-query placeholders are numbered i+1 by the range index over the ordered Inputs slice, an input is appended only for a name not seen before, and the generated Go function builds its signature and its argument list in one loop over that same slice; RE-C16 the word regexp of the table-name replacer is exactly maximal runs of \\w and the replacement is an exact map lookup leaving other words unchanged, the enum placeholder regexp has exactly two groups, REFERENCES captures one word that goes through SQLTableName; FLW-C16t a constraint is emitted for the table of the iteration that owns it, with ALTER TABLE only for texts starting with ADD. Does not decide: attribution of comments to structs in grouped declarations, exact rewriting results as strings, typing of inputs."
-	r.Rules = []string{"PTH-C16a", "FLW-C16b", "AGR-C16c", "RE-C16", "FLW-C16t", "PTH-C16o", "PTH-C16w", "CONST-EXACT", "PRINTF", "MUT-AN"}
+	r.Rules = []string{"PTH-C16a", "FLW-C16b", "AGR-C16c", "RE-C16", "FLW-C16t", "PTH-C16o", "PTH-C16w", "CONST-EXACT", "PRINTF", "MUT-AN", "CUTSET", "SEP-INDEX"}
 	mutAnRule(w, r, func(rel string) bool {
 		return rel == "generator" || rel == "generator/sql" || rel == "generator/go/sqlcrud"
 	})
